@@ -158,9 +158,9 @@ func c15TypeSpecific(c *Ctx, rule string) {
 func checkC04(c *Ctx) {
 	r := c.Rep
 	p := c.Prog
-	r.Explain = "Bit-provenance abstract interpretation of every Unmarshal on an unconstrained input: the decoder's map field bit <- input octet/bit at its successful returns, valid for every input, is compared with the RFC layout tables: each field is taken from exactly its specified wire bits (big-endian), bits above the wire width are zero, and no field depends on a reserved or padding bit (the comparison is an equality of maps, so a stray dependency shows). CNT: for SR, RR, SDES and BYE the numeric engine entails at every nil-error return that the number of decoded elements equals the header count (an inflated count cannot be accepted; for BYE, whose list is allocated from the count, also that the announced sources lie inside the packet). ACC: for each of 28 boundary shapes (a datagram of fixed length with a few fixed octets, every other octet arbitrary: padded APP, BYE with and without reason, empty lists, minimal feedback packets, unknown XR block, a padded frame followed by another) the constant propagator evaluates the decoder on the whole shape and must reach a return without a definite error: a shape whose every return carries a non-nil error is a valid encoding the decoder always rejects. XR: unpackBlockHeader inverts the RFC 3611 type-specific octet, the block type switch has UnknownReportBlock as default arm, blocks are split at 4*(BlockLength+1) (C15's rules)."
+	r.Explain = "Bit-provenance abstract interpretation of every Unmarshal on an unconstrained input: the decoder's map field bit <- input octet/bit at its successful returns, valid for every input, is compared with the RFC layout tables: each field is taken from exactly its specified wire bits (big-endian), bits above the wire width are zero, and no field depends on a reserved or padding bit (the comparison is an equality of maps, so a stray dependency shows). CNT: for SR, RR, SDES and BYE the numeric engine entails at every nil-error return that the number of decoded elements equals the header count (an inflated count cannot be accepted; for BYE, whose list is allocated from the count, also that the announced sources lie inside the packet). ACC: for each of 39 boundary shapes (a datagram of fixed length with a few fixed octets, every other octet arbitrary: padded APP, BYE with and without reason, empty lists, minimal feedback packets, unknown XR block, a padded frame followed by another) the constant propagator evaluates the decoder on the whole shape and must reach a return without a definite error: a shape whose every return carries a non-nil error is a valid encoding the decoder always rejects. XR: unpackBlockHeader inverts the RFC 3611 type-specific octet, the block type switch has UnknownReportBlock as default arm, blocks are split at 4*(BlockLength+1) (C15's rules)."
 	r.RuleText = "C04-LAY per unit; C04-CNT; C04-FRESH (a composite appended to a list inside a decoder loop is allocated or wholly re-assigned inside that loop); C04-ACC (a table of RFC-valid boundary shapes — fixed length, some octets fixed, the rest arbitrary — none of which may be rejected on every path); C04-XR (C15-TS/DSP/BL)."
-	r.Trusted = []string{"go/ssa", "checker/bits", "checker/num", "checker/pe (conditional constant propagation)", "layout tables props/layout.go", "shape table props/c04acc.go (28 RFC-valid boundary shapes, written from RFC 3550/4585/5104/6051/3611/8888 and the REMB draft)"}
+	r.Trusted = []string{"go/ssa", "checker/bits", "checker/num", "checker/pe (conditional constant propagation)", "layout tables props/layout.go", "shape table props/c04acc.go (39 RFC-valid boundary shapes, written from RFC 3550/4585/5104/6051/3611/8888 and the REMB draft)"}
 	r.Assume = []string{"decoder receivers are zero values"}
 	r.NotCov("alternative TWCC chunkings (accepted, C04-ACC; equal decoding is a run-time relation), RecvDelta scaling (C13), REMB mantissa/exponent arithmetic (C14), SDES/BYE texts, APP padding, CCFB report blocks (data-dependent offsets)")
 
